@@ -138,6 +138,7 @@ impl Driver {
 			Op::TryRestartSig { sig, grace_ms } => job.try_restart_with_signal(to_signal(*sig), ms(*grace_ms)),
 			Op::Signal(sig) => job.signal(to_signal(*sig)),
 			Op::ToWait => job.to_wait(),
+			Op::RawNextEnding => job.control(Control::NextEnding),
 			Op::Delete => job.delete(),
 			Op::DeleteNow => job.delete_now(),
 			Op::Continue => job.control(Control::ContinueTryGracefulRestart),
@@ -282,6 +283,13 @@ fn set_async_hook(job: &Job, world: &Arc<World>, delay_ms: u64) -> Ticket {
 
 fn set_errh(job: &Job, world: &Arc<World>, eid: u32) -> Ticket {
 	let w = world.clone();
+	if eid % 2 == 1 {
+		// the async flavour of the handler (its future is ready at once, so the documented semantics are the sync one's)
+		return job.set_async_error_handler(move |e| {
+			w.log(Ev::ErrHandler { id: eid, msg: e.get().map(ToString::to_string).unwrap_or_default() });
+			Box::new(std::future::ready(()))
+		});
+	}
 	job.set_error_handler(move |e| {
 		w.log(Ev::ErrHandler { id: eid, msg: e.get().map(ToString::to_string).unwrap_or_default() });
 	})
